@@ -135,12 +135,32 @@ impl<'gc> CellRef<'gc> {
     }
 }
 
+/// A weak slot behind a trait object: traced through the object-safe `DynCollect` path.
+pub trait WeakSlot<'gc>: 'gc + gc_arena::collect::DynCollect<'gc> {
+    fn cell(&self) -> &Lock<Option<GcWeak<'gc, Node<'gc>>>>;
+}
+gc_arena::collect::dyn_collect!(dyn WeakSlot<'gc>);
+pub struct WSlot<'gc>(pub Lock<Option<GcWeak<'gc, Node<'gc>>>>);
+unsafe impl<'gc> Collect<'gc> for WSlot<'gc> {
+    fn trace<T: Trace<'gc>>(&self, cc: &mut T) {
+        cc.trace(&self.0);
+    }
+}
+impl<'gc> WeakSlot<'gc> for WSlot<'gc> {
+    fn cell(&self) -> &Lock<Option<GcWeak<'gc, Node<'gc>>>> {
+        &self.0
+    }
+}
+/// Set by the scope (per execution thread): the weak slot of a node is the one behind the trait object.
+thread_local! { pub static DYNWEAK: Cell<bool> = const { Cell::new(false) }; }
+
 pub struct Node<'gc> {
     pub id: u32,
     pub pat: u64,
     pub _tok: Tok,
     pub s: [Lock<Option<NodeGc<'gc>>>; 2],
     pub w: Lock<Option<GcWeak<'gc, Node<'gc>>>>,
+    pub dw: Box<dyn WeakSlot<'gc> + 'gc>,
     pub leaf: Lock<Option<LeafGc<'gc>>>,
     pub wl: Lock<Option<GcWeak<'gc, RefLock<Leaf>>>>,
     pub cell: Lock<Option<CellRef<'gc>>>,
@@ -151,9 +171,20 @@ unsafe impl<'gc> Collect<'gc> for Node<'gc> {
         fault_point();
         cc.trace(&self.s[1]);
         cc.trace(&self.w);
+        cc.trace(&self.dw);
         cc.trace(&self.leaf);
         cc.trace(&self.wl);
         cc.trace(&self.cell);
+    }
+}
+
+impl<'gc> Node<'gc> {
+    /// the node's weak slot (direct field, or the one behind the trait object in `dynweak` scopes)
+    pub fn wcell(&self) -> &Lock<Option<GcWeak<'gc, Node<'gc>>>> {
+        if DYNWEAK.with(|d| d.get()) { self.dw.cell() } else { &self.w }
+    }
+    pub fn wk(&self) -> Option<GcWeak<'gc, Node<'gc>>> {
+        self.wcell().get()
     }
 }
 
@@ -341,6 +372,7 @@ pub struct World {
 
 impl World {
     pub fn new(sc: Scope, base: u32) -> World {
+        DYNWEAK.with(|d| d.set(sc.dynweak));
         let nsets = sc.sets as usize;
         let mut set_addrs = [0usize; 2];
         let arena: A = talloc::subject(|| {
@@ -527,7 +559,7 @@ impl World {
                         (Some(c), Some(cg)) => st.push((c, Obj::Cell(cg))),
                         (a, b) => viol!("safe.traversal", "object {id} cell: shadow {:?} real {}", a, b.is_some()),
                     }
-                    match (so.w, g.w.get()) {
+                    match (so.w, g.wk()) {
                         (None, None) => {}
                         (Some(t), Some(wg)) => {
                             if self.id_of_addr(wg.as_ptr() as usize) != Some(t) {
@@ -635,7 +667,7 @@ impl World {
                     }
                 }
                 let Some(t) = o.w else { continue };
-                let w = m[i].unwrap().node().w.get().unwrap();
+                let w = m[i].unwrap().node().wk().unwrap();
                 let td = this.sh.objs[t as usize].dropped;
                 if w.is_dropped() != td {
                     viol!("c05.is_dropped", "is_dropped() = {} for target {t} whose destructor has{} run", w.is_dropped(), if td { "" } else { " not" });
